@@ -508,7 +508,10 @@ class Session:
             os.mkdir(path)
         elif kind == 'dangling':
             os.makedirs(self.path('gone'), exist_ok=True)
-            os.symlink(self.path('gone', os.path.basename(path) + '.target'), path)
+            self.n_links = getattr(self, 'n_links', 0) + 1      # a fresh target every time: a write through an earlier link
+            target = self.path('gone', '%s.target%d' % (os.path.basename(path), self.n_links))   # has created that link's target
+            assert not os.path.lexists(target)
+            os.symlink(target, path)
         elif kind == 'noperm':
             with open(path, 'wb') as f:
                 f.write(b'{}')
